@@ -116,6 +116,7 @@ func runShard(bin string, cs *checkSpec, shard int, checks int, seed int64, tier
 	res.journal = base + ".journal"
 	os.Remove(res.failFile)
 	os.Remove(res.failFile + ".pending")
+	os.Remove(res.failFile + ".first")
 	os.Remove(res.journal)
 	args := []string{"-test.run", "^" + cs.Test + "$", "-test.v", "-test.timeout", "0",
 		"-rapid.checks", strconv.Itoa(checks), "-rapid.seed", strconv.FormatUint(rapidSeed(seed, shard, cs.Test), 10),
@@ -651,6 +652,28 @@ func main() {
 					break
 				}
 				confirmed = bad
+			}
+			if !confirmed && r.exit != 3 {
+				// The shrunk case does not fail on its own: the failure may depend on what the process
+				// evaluated before. The first failing case of the shard was saved with the cases before it.
+				if fb, err := os.ReadFile(r.failFile + ".first"); err == nil {
+					if kf := matchKnown(known, fb, *property); kf == nil {
+						fpath := saveReplay(*property, fb)
+						for a := 0; a < 2 && !confirmed; a++ {
+							bad, inc, _ := replayFile(b, fpath, replayLimit)
+							if inc {
+								break
+							}
+							confirmed = bad
+						}
+						if confirmed {
+							_ = os.Remove(path)
+							path = fpath
+						} else {
+							_ = os.Remove(fpath)
+						}
+					}
+				}
 			}
 			if confirmed {
 				violations++
